@@ -205,10 +205,10 @@ func expectedDump(p *Prog) (string, bool) {
 					add("R.%s.%d.%s", hexs(s.Name), k, nodes(fn.Ret))
 				}
 				for a, fl := range fn.Args {
-					add("A.%s.%d.%d.%s", hexs(s.Name), k, a, nodes(fl.Type))
+					add("A.%s.%d.%d.%s.%s", hexs(s.Name), k, a, nodes(fl.Type), bnd(fl.Default))
 				}
 				for a, fl := range fn.Throws {
-					add("X.%s.%d.%d.%s", hexs(s.Name), k, a, nodes(fl.Type))
+					add("X.%s.%d.%d.%s.%s", hexs(s.Name), k, a, nodes(fl.Type), bnd(fl.Default))
 				}
 			}
 		}
